@@ -325,6 +325,28 @@ fn explore(ctx: &mut Ctx) {
             }
         }
     }
+    // Every fill level of a block in front of the widest runs the encoding allows (a gap of 2^63 takes 22 code
+    // units, a length of 2^60 + 1 takes 21): `fill` units are used by tiny runs, then comes the wide run, then
+    // two more runs. Does the wide run still fit, is the block closed, is anything overwritten?
+    for fill in 0..=66usize {
+        for &(wide_gap, wide_len) in &[(1u64 << 63, (1u64 << 60) + 1), (1u64 << 63, 1u64), (2u64, (1u64 << 60) + 1), ((1u64 << 62) + 5, (1u64 << 61) + 3)] {
+            let mut pairs: Vec<(u64, u64)> = std::iter::repeat((1u64, 1u64)).take(fill / 2).collect();
+            if fill % 2 == 1 {
+                if pairs.is_empty() {
+                    continue;
+                }
+                pairs[0] = (1, 9); // three code units instead of two
+            }
+            pairs.push((wide_gap, wide_len));
+            pairs.push((1, 1));
+            pairs.push((7, 2));
+            let c = Case::Runs { pairs, tail: 3 };
+            if ctx.mine(&c) {
+                ctx.count("block_fill_x_wide_run_cases", 1);
+                check_case(ctx, &c);
+            }
+        }
+    }
     // Lengths at the documented maximum: usize::MAX, MAX-1, MAX-2, ... with k tiny runs first (1, 8, 9, 10+
     // blocks) and either a final run or trailing zeros reaching the end.
     for &k in &[0usize, 1, 200, 256, 257, 288, 320, 600] {
